@@ -687,9 +687,11 @@ impl<Store: StorageData> DbImpl<Store> {
             ));
         }
 
-        if let Some(old_alias) = self.aliases.key(&self.storage, &db_id)?
-            && old_alias != *alias
-        {
+        if let Some(old_alias) = self.aliases.key(&self.storage, &db_id)? {
+            if old_alias == *alias {
+                return Ok(());
+            }
+
             self.undo_stack.push(Command::InsertAlias {
                 id: db_id,
                 alias: old_alias,
